@@ -227,17 +227,15 @@ mutant("C16", "getitem-temporary-rename", "src/vector/backends/numpy.py",
 ''',
        '''    else:
         saved = array.dtype.names
-        array.dtype.names = tuple(n.upper() for n in saved)
+        array.dtype.names = tuple(n.upper() for n in saved)   # "protect" the names during raw indexing
         try:
-            out = numpy.ndarray.__getitem__(array, where)
+            out = numpy.ndarray.__getitem__(array.view(numpy.ndarray), where)
         finally:
-            pass
-        array.dtype.names = saved
+            array.dtype.names = saved
         if isinstance(out, numpy.ndarray):
-            out.dtype.names = saved
+            out = out.view(type(array))
         if not isinstance(out, numpy.void):
             return out
-        out.dtype.names = saved
 ''')
 # ------------------------------------------------------------------ C15
 mutant("C15", "x-setter-swapped", "src/vector/backends/object.py",
